@@ -1,5 +1,5 @@
 ---------------------------- MODULE MC_Templates ----------------------------
-(* instance of Templates: three contents - k1 and k2 share the residue name RA but differ (k2 has one more atom), *)
+(* instances of Templates: three contents - k1 and k2 share the residue name RA but differ (k2 has one more atom), *)
 (* k3 is RB with the atom names of k2 and other bonds -, molecules of one or two residues, systems of one or two  *)
 (* molecules, build files = sequences of distinct entries (three possible templates, two possible volume lines).  *)
 EXTENDS Templates, Json, SequencesExt
@@ -21,12 +21,35 @@ MCBuild4 == DistinctSeqs(Entries, 4)
 MCSystemsDev == { << <<"k1", "k2">> >>, << <<"k2">>, <<"k1">> >>, << <<"k3">> >> }
 MCBuildDev == DistinctSeqs({ TEnt("k1"), TEnt("k2"), VEnt("RA", 770) }, 3)
 
+\* ---- instance with LARGE residues (>= 16 atoms): kL (RL, 16 atoms: a chain of 12 with four branches), kM (RL too, kL with two more atoms),
+\* k1 as small control; the key function of the code must not depend on the call site whatever the size of the residue
+MCContentL == ("k1" :> [rn |-> "RA", g |-> G(2, <<"A", "B">>, {<<1, 2>>}), u |-> << <<0, 0, 0>>, <<2, 0, 0>> >>]) @@
+              ("kL" :> [rn |-> "RL", g |-> G(16, <<"L1", "L2", "L3", "L4", "L5", "L6", "L7", "L8", "L9", "L10", "L11", "L12", "L13", "L14", "L15", "L16">>,
+                                             {<<1, 2>>, <<2, 3>>, <<3, 4>>, <<4, 5>>, <<5, 6>>, <<6, 7>>, <<7, 8>>, <<8, 9>>, <<9, 10>>, <<10, 11>>, <<11, 12>>, <<3, 13>>, <<6, 14>>, <<9, 15>>, <<12, 16>>}),
+                        u |-> << <<1, 1, 0>>, <<2, 0, 0>>, <<3, 1, 0>>, <<4, 0, 0>>, <<5, 1, 0>>, <<6, 0, 0>>, <<7, 1, 0>>, <<8, 0, 0>>, <<9, 1, 0>>, <<10, 0, 0>>, <<11, 1, 0>>, <<12, 0, 0>>, <<3, 0, 2>>, <<6, 0, 2>>, <<9, 0, 2>>, <<12, 0, 2>> >>]) @@
+              ("kM" :> [rn |-> "RL", g |-> G(18, <<"L1", "L2", "L3", "L4", "L5", "L6", "L7", "L8", "L9", "L10", "L11", "L12", "L13", "L14", "L15", "L16", "L17", "L18">>,
+                                             {<<1, 2>>, <<2, 3>>, <<3, 4>>, <<4, 5>>, <<5, 6>>, <<6, 7>>, <<7, 8>>, <<8, 9>>, <<9, 10>>, <<10, 11>>, <<11, 12>>, <<3, 13>>, <<6, 14>>, <<9, 15>>, <<12, 16>>, <<13, 17>>, <<14, 18>>}),
+                        u |-> << <<1, 1, 0>>, <<2, 0, 0>>, <<3, 1, 0>>, <<4, 0, 0>>, <<5, 1, 0>>, <<6, 0, 0>>, <<7, 1, 0>>, <<8, 0, 0>>, <<9, 1, 0>>, <<10, 0, 0>>, <<11, 1, 0>>, <<12, 0, 0>>, <<3, 0, 2>>, <<6, 0, 2>>, <<9, 0, 2>>, <<12, 0, 2>>, <<3, 1, 4>>, <<6, 1, 4>> >>])
+TEntL(k) == [e |-> "T", k |-> k, rn |-> MCContentL[k].rn, v |-> 0]
+MCSystemsL == { << <<"kL">> >>, << <<"k1", "kL">> >>, << <<"kL">>, <<"k1", "kL">> >>, << <<"kL", "kM">> >>, << <<"kM">>, <<"kL">> >>,
+                << <<"k1", "kL">>, <<"k1", "kL">> >>, << <<"kL", "kL">> >> }
+MCBuildL == DistinctSeqs({ TEntL("k1"), TEntL("kL"), TEntL("kM"), VEnt("RL", 880) }, 3)
+MCSystemsLDev == { << <<"k1", "kL">> >>, << <<"kL">>, <<"kM">> >> }
+MCBuildLDev == DistinctSeqs({ TEntL("kL"), VEnt("RL", 880) }, 2)
+\* deviation run for the processor memory: two molecules sharing a residue, with and without a build file
+MCSystemsShare == { << <<"k1">>, <<"k1", "k2">> >>, << <<"k1", "k2">>, <<"k1", "k2">> >>, << <<"k3">> >> }
+
 \* ---- S->I export: the final tables of every behaviour
 COut(k) == [rn |-> Content[k].rn, nm |-> Content[k].g.nm,
             ed |-> SetToSortSeq(Content[k].g.ed, LAMBDA a, b : a[1] < b[1] \/ (a[1] = b[1] /\ a[2] < b[2])), u |-> Content[k].u]
-KOut(k) == [tsrc |-> tmpl[k].src, vsrc |-> vols[k].src, v |-> vols[k].v,
-            tnum |-> [i \in 1..Len(Content[k].u) |-> Stored(k)[i].num], tden |-> Stored(k)[1].den]
-Case == [sys |-> sys, bld |-> bld, content |-> [k \in Keys |-> COut(k)], keys |-> [k \in UsedKeys |-> KOut(k)],
-         tags |-> [m \in 1..Len(sys) |-> [i \in 1..Len(sys[m]) |-> tag[<<m, i>>]]], devVolLost |-> DevVolLost]
+\* the tables are read at the key the residues of content k CARRY (TagKey), i.e. the template and size a residue is mapped to
+KOut(k) == LET h == TagKey(k) IN
+           [tsrc |-> tmpl[h].src, vsrc |-> vols[h].src, v |-> vols[h].v, ngen |-> ngen[h],
+            tnum |-> [i \in 1..Len(Content[k].u) |-> Stored(h)[i].num], tden |-> Stored(h)[1].den]
+Case == [sys |-> sys, bld |-> bld, nobld |-> nobld, content |-> [k \in Keys |-> COut(k)], keys |-> [k \in UsedKeys |-> KOut(k)],
+         tags |-> [m \in 1..Len(sys) |-> [i \in 1..Len(sys[m]) |-> tag[<<m, i>>]]],
+         held |-> [m \in 1..Len(sys) |-> [i \in 1..Len(sys[m]) |-> held[m][tag[<<m, i>>]]]],
+         sizeok |-> [m \in 1..Len(sys) |-> [i \in 1..Len(sys[m]) |-> SizeOK(<<m, i>>)]],
+         devVolLost |-> DevVolLost]
 ExportInv == Done => PrintT(<<"CASE", ToJson(Case)>>)
 =============================================================================
